@@ -229,6 +229,31 @@ def r_tagmap(run, F, T, check_registry=True, rule="R-TAGMAP"):
 
 
 # ---------------------------------------------------------------------------------------------
+TEXT_IDENTITY = {"into_owned", "to_string", "to_owned", "into", "from", "clone", "as_ref", "deref", "borrow", "into_boxed_str", "into_string"}
+
+
+def altered_by(fv, src):
+    """Names of the calls between a decoded text (`src` call) and the field it is stored in that are not identity conversions."""
+    if fv is None:
+        return None
+    bad = []
+
+    def down(t):
+        if t is src or (is_call(t) and len(t) > 3 and len(src) > 3 and t[3] is src[3]):
+            return True
+        if isinstance(t, tuple) and t[0] in ("ok?", "await") :
+            return down(t[1])
+        if is_call(t):
+            for a in t[2]:
+                if any(x is src or (is_call(x) and len(x) > 3 and len(src) > 3 and x[3] is src[3]) for x in subterms(a)):
+                    if t[1].split("::")[-1] not in TEXT_IDENTITY:
+                        bad.append(t[1].split("::")[-1])
+                    return down(a)
+        return False
+    down(fv)
+    return bad or None
+
+
 def decoder_items(p, pb):
     """Ordered reads of the value buffer on one path of IppValue::parse, with destination fields."""
     r = p.ret
@@ -251,9 +276,11 @@ def decoder_items(p, pb):
             width = {"u8": 1, "i8": 1, "u16": 2, "i16": 2, "u32": 4, "i32": 4, "u64": 8, "i64": 8}.get(suffix)
             items.append(("int", width, dest, suffix))
         elif t[1] == "ipp::value::get_len_string" and t[2][0] == data:
-            items.append(("lenstring", dest))
+            alt = altered_by(fields.get(dest), t) if dest is not None else None
+            items.append(("lenstring", dest) if not alt else ("?", "text of %s altered by %s after decoding" % (dest, alt)))
         elif t[1] == "std::string::String::from_utf8_lossy" and t[2][0] == data:
-            items.append(("text", dest))
+            alt = altered_by(fields.get(dest), t) if dest is not None else None
+            items.append(("text", dest) if not alt else ("?", "text of %s altered by %s after decoding" % (dest, alt)))
         elif t[1].startswith("bytes::Buf::") and t[2] and t[2][0] == data and t[1].split("::")[-1] not in ("remaining", "has_remaining", "chunk"):
             items.append(("?", t[1]))
     for fname, fv in fields.items():
